@@ -400,7 +400,7 @@ def replay_arnoldi(rep, light=False):
                     continue
                 # documented: num_ev entries; only min(N, num_ev) Ritz values exist (finding C16-arnoldi-padding: the rest is
                 # padding).  Both lengths are accepted until the padding is removed; then flip to `len(Es) != nret`.
-                if len(Es) not in (numev, nret):
+                if len(Es) != nret:
                     bad('number-of-values', got=len(Es))
                     continue
                 allkeys = [which_key(which, e + sigma) for e in Es]
